@@ -405,6 +405,7 @@ pub fn c18_subs() -> Vec<Box<dyn Sub>> {
             strat: Box::new(|| vec(seg(), 0..7).prop_map(|segs| SegCase { segs }).boxed()),
             body: Box::new(segs_body),
             guard_death: false,
+            max_shrink: 4096,
         }),
         Box::new(Check {
             name: "path_new",
@@ -427,6 +428,7 @@ pub fn c18_subs() -> Vec<Box<dyn Sub>> {
             }),
             body: Box::new(new_body),
             guard_death: false,
+            max_shrink: 4096,
         }),
     ]
 }
